@@ -92,7 +92,7 @@ CLAIMED = {
              "scale handed to quantise_scale by the Quantize folding; the function tabulated for tanh/sigmoid; two lookup tables share an "
              "equivalence id (one copy in the constants region) exactly when all their values are equal (hash() modelled for ints/tuples); the 256-entry "
              "softmax exp table against TFLite's preparation (input radius, rescale, exp_on_negative_values; leaves as shared uninterpreted functions); the rounding "
-             "wrapper of convert_to_lut8 / create_lut_8bit_op for ANY function value (IEEE float queries decided by a fresh non-incremental solver; output scale enumerated). Added later: Max(x, Mul(x, c)) in either operand order becomes a LeakyReLU/Abs only when input, Mul output and Max output are quantised identically (quantisation equalities as free Booleans); for power-of-two output scales and function values on the 2^-20 grid (ties excluded) the 8-bit table entry is exactly the saturated nearest integer - which pins the precision the quotient is computed in. Round 7-8 additions: tie-inclusive exact table entries (reference order round-then-add-zero-point); multiply_by_quantized_multiplier against an exact reference when it bypasses the doubling-high-multiply leaf.",
+             "wrapper of convert_to_lut8 / create_lut_8bit_op for ANY function value (IEEE float queries decided by a fresh non-incremental solver; output scale enumerated). Added later: Max(x, Mul(x, c)) in either operand order becomes a LeakyReLU/Abs only when input, Mul output and Max output are quantised identically (quantisation equalities as free Booleans); for power-of-two output scales and function values on the 2^-20 grid (ties excluded) the 8-bit table entry is exactly the saturated nearest integer - which pins the precision the quotient is computed in. Round 7-8 additions: tie-inclusive exact table entries (reference order round-then-add-zero-point); multiply_by_quantized_multiplier against an exact reference when it bypasses the doubling-high-multiply leaf. Round 10 addition: exp_interval_exact - the exp polynomial with the exact (not abstracted) 32x32 multiply on a 10-bit operand family per shift.",
         note="Trusted: z3 (BV/UF), symx NumPy-scalar proxies (differentially validated by symx.selfcheck), gemmlowp/TFLite definitions "
              "restated on bit-vectors. Quick tier abstracts the 32x32 product of srm32 to a shared uninterpreted function (exact multiplier "
              "in thorough). Outside: the values of sigmoid/tanh/exp tables built from math.tanh/exp (transcendental; the tabulated function is observed "
@@ -125,7 +125,7 @@ CLAIMED = {
              "IFM / IFM2 / accumulator partitions each double-buffering the required block at its bank granule (independent restatement of the "
              "shared-buffer rules incl. the 1-D optimisation); invalid blocks are rejected; for every operation description the argument "
              "derivation of api.npu_find_block_configs implies acceptance under get_arch_block_config's derivation (symbolic block depth); "
-             "find_block_config's results re-validate; the query/generator agreement also for operations whose IFM and OFM precision differ. Added later: IFM height/width independent of the OFM's; x2 TRANSPOSE resampling layouts for even and odd kernels; the configuration the scheduler selects (SchedulerOperation._get_block_config) re-validates with the generator's description of the operation, keeping the lookup table's banks free. Round 7-8 additions: liveness (one micro-block is always accepted); the kernel description the generator uses for the layout (generator_kernel).",
+             "find_block_config's results re-validate; the query/generator agreement also for operations whose IFM and OFM precision differ. Added later: IFM height/width independent of the OFM's; x2 TRANSPOSE resampling layouts for even and odd kernels; the configuration the scheduler selects (SchedulerOperation._get_block_config) re-validates with the generator's description of the operation, keeping the lookup table's banks free. Round 7-8 additions: liveness (one micro-block is always accepted); the kernel description the generator uses for the layout (generator_kernel). Round 10 addition: generator_args (same lemma as C06 layout_args).",
         note="Trusted: z3, symx proxies, the per-accelerator constants (micro-block, banks, granules) restated in the harness, my reading "
              "of the SHRAM double-buffering rule. Quick tier samples 260 of the enumerated layout combinations per accelerator by seed "
              "(thorough: all). Outside: part-kernel choice agreement with the weight encoder, cost-based candidate choice.",
@@ -141,7 +141,7 @@ CLAIMED = {
              "when the second operation is generated. A reference decoder tracks the register file over the emitted words and at each NPU_OP "
              "word requires every direct register to hold that operation's value - written or elided - including address/shift bits in the "
              "command parameter, with no truncation; KERNEL_WAIT/DMA_WAIT words precede the operation they guard on sequences of 3-4 operations (C04's monitor); alignment/length errors exactly when the hardware rule is broken; one op word per "
-             "operation; exactly one STOP as the last word. Added later: the SHRAM bytes a kernel operation declares as written (what decides its waits) cover its block configuration's layout on every accelerator (shram_writes). Round 8 addition: the kernel the generator hands to the SHRAM layout computation is the operation's own (layout_kernel).",
+             "operation; exactly one STOP as the last word. Added later: the SHRAM bytes a kernel operation declares as written (what decides its waits) cover its block configuration's layout on every accelerator (shram_writes). Round 8 addition: the kernel the generator hands to the SHRAM layout computation is the operation's own (layout_kernel). Round 10 addition: layout_args - every argument get_arch_block_config hands to try_block_config (scaled, uses_scalar, LUT banks, bits, IFM2 shape) follows the operation, for symbolic quantisation / operand kind / activation / precision.",
         note="Trusted: z3, symx proxies, my reference register map/decoder (cmd0 = 16-bit parameter, cmd1 = 32-bit payload + parameter bits). "
              "calc_blockdep is stubbed to 0 (C04) and the tile group runs with empty access sets. Outside: lists longer than two operations "
              "(covered per register by the arbitrary-previous-value argument), cross-group elision coupling, SHRAM-layout registers "
